@@ -234,6 +234,7 @@ pub fn record_compile(opts: &Opts) -> i32 {
     if opts.get("profile") == Some("spine16") {
         let mut depths = ladder(30, opts.num("size", 240) as usize);
         if opts.get("few").is_some() { depths.retain(|d| [49, 65, 200].contains(d) || numdict_new().contains(d)); }
+        if opts.get("mid").is_some() { depths.retain(|d| [40, 41, 48, 49, 64, 65, 100, 128, 129, 200, 240].contains(d) || numdict_new().contains(d)); }
         for (shape, d, t) in spine16(&depths) {
             let o = lipe_find_parser::RunOptions::default();
             let c = run_compile(&t, &o, &paths);
@@ -252,6 +253,7 @@ pub fn record_compile(opts: &Opts) -> i32 {
     if opts.get("profile") == Some("longfmt") {
         let mut sizes = ladder(8, opts.num("size", 300) as usize);
         if opts.get("few").is_some() { sizes.retain(|d| [20, 41, 65, 129].contains(d) || numdict_new().contains(d)); }
+        if opts.get("mid").is_some() { sizes.retain(|d| [20, 40, 41, 64, 65, 100, 128, 129, 256, 257, 300].contains(d) || numdict_new().contains(d)); }
         for (shape, d, t) in long_format_programs(&sizes) {
             let o = lipe_find_parser::RunOptions::default();
             let c = run_compile(&t, &o, &paths);
